@@ -275,3 +275,16 @@ Proof.
   - destruct (reads_are_identity_file istate eat finish complete cmatch gen_shape _ _ _ _ _ _ _ _ H) as (_ & _ & Hc).
     cbn [f_pos f_data s0] in Hc. rewrite app_nil_r in Hc. exact Hc.
 Qed.
+
+(* a decision reported BEFORE close already carries the signature of the bytes read so far *)
+Theorem early_format_implies_signature expected allowed cs w m f :
+  read_so_far expected allowed cs w -> cw_format w = Ok (Some m) -> s_name m = fmt_name f -> f <> F_raw ->
+  sigb f (concat cs) = true.
+Proof.
+  intros Hrs Hf Hn Hnr.
+  destruct (decision_stable expected allowed cs w m Hrs Hf) as [_ Hclose].
+  assert (Hrc : read_and_closed expected allowed (cs ++ []) (cw_close w)).
+  { rewrite app_nil_r. destruct Hrs as (tr & un & H). exists w, tr, un. auto. }
+  destruct (Hclose [] _ Hrc) as (m3 & Hf3 & Hn3).
+  rewrite <- (app_nil_r cs). eapply format_implies_signature; [exact Hrc | exact Hf3 | congruence | exact Hnr].
+Qed.
